@@ -26,6 +26,9 @@ def _call(kind, net):
     elif kind == "contingency":
         from pandapower.contingency import run_contingency
         run_contingency(net, {"line": {"index": [0, 1]}})
+    elif kind == "estimate":
+        from pandapower.estimation import estimate
+        estimate(net, init="flat", fuse_buses_with_bb_switch="all" if len(net.gen) else [])
     else:
         raise ValueError(kind)
 
@@ -77,6 +80,8 @@ def observe(test):
         if out["outcome"] == "returned":
             ev2.append("cont.done")
         ev = ev2
+    if test["kind"] == "estimate":
+        ev = ["se.done"] if out["outcome"] == "returned" else []
     out["events"] = ev
     r1, s1 = rows(net), value_snapshot(net)
     out["row_delta"] = ["%s%+d" % (k, r1.get(k, 0) - r0.get(k, 0)) for k in sorted(set(r0) | set(r1))
@@ -154,6 +159,6 @@ def run(tier, seed, replay=None):
         "samples": [cases[k] for k in range(0, len(cases), max(1, len(cases) // 3))][:3],
     }
     v.assumptions = ["crash points are the hook stages of pandapower/_verif.py plus two natural failures; exceptions inside a "
-                     "stage other than those are not enumerated", "state estimation and b2b_vsc nets not covered (estimate() "
-                     "is broken under this numpy; see DESIGN)", "element tables compared by digest of index/columns/dtypes/values"]
+                     "stage other than those are not enumerated", "state estimation is a calculation kind without crash points (no hooks inside estimate()); b2b_vsc nets "
+                     "not covered", "element tables compared by digest of index/columns/dtypes/values"]
     return v.finish()
